@@ -218,5 +218,28 @@ func runC16(r *Run) {
 			}
 		}
 	}
+	// the same through a MAP of structs; the entry that types the map depends on Go's map iteration order, so repeat
+	for rep := 0; rep < 40; rep++ {
+		stock := map[string]item{}
+		stock["a"] = item{"a", sc(5)}
+		stock["b"] = item{"b", nil}
+		stock["c"] = item{"c", sc(7)}
+		hv := map[string]interface{}{"stock": stock}
+		for _, src := range []string{`stock["b"].score + 1`, `stock["b"].score == 0`, `stock["b"].score > stock["c"].score`, `max(stock["b"].score, 5)`} {
+			var got string
+			protect(func() {
+				v, err := yae.Eval(src, hv)
+				if err != nil {
+					got = "error"
+				} else {
+					got = "value " + v.String()
+				}
+			})
+			r.Count("host-mixed-nil programs")
+			if strings.HasPrefix(got, "value") {
+				r.Violate("absent-optional-consumed-without-get", fmt.Sprintf("%q over a map of structs with scores set / nil / set", src), "an absent score took part in a computation: "+got)
+			}
+		}
+	}
 	_ = types.Num
 }
